@@ -27,7 +27,7 @@ func (fs MtreeFS) CreateDir(n NodeDirectory) error {
 	attr = append(attr, fmt.Sprintf("mode=%04o", n.Mode.Perm()))
 	attr = append(attr, fmt.Sprintf("uid=%d", n.UID))
 	attr = append(attr, fmt.Sprintf("gid=%d", n.GID))
-	attr = append(attr, fmt.Sprintf("time=%d.%9d", n.MTime.Unix(), n.MTime.Nanosecond()))
+	attr = append(attr, fmt.Sprintf("time=%d.%09d", n.MTime.Unix(), n.MTime.Nanosecond()))
 	fmt.Fprintln(fs.w, strings.Join(attr, " "))
 	return nil
 }
@@ -66,7 +66,7 @@ func (fs MtreeFS) CreateSymlink(n NodeSymlink) error {
 	attr = append(attr, fmt.Sprintf("target=%s", mtreeFilename(n.Target)))
 	attr = append(attr, fmt.Sprintf("uid=%d", n.UID))
 	attr = append(attr, fmt.Sprintf("gid=%d", n.GID))
-	attr = append(attr, fmt.Sprintf("time=%d.%9d", n.MTime.Unix(), n.MTime.Nanosecond()))
+	attr = append(attr, fmt.Sprintf("time=%d.%09d", n.MTime.Unix(), n.MTime.Nanosecond()))
 	fmt.Fprintln(fs.w, strings.Join(attr, " "))
 	return nil
 }
@@ -81,7 +81,7 @@ func (fs MtreeFS) CreateDevice(n NodeDevice) error {
 	attr = append(attr, fmt.Sprintf("mode=%04o", n.Mode.Perm()))
 	attr = append(attr, fmt.Sprintf("uid=%d", n.UID))
 	attr = append(attr, fmt.Sprintf("gid=%d", n.GID))
-	attr = append(attr, fmt.Sprintf("time=%d.%9d", n.MTime.Unix(), n.MTime.Nanosecond()))
+	attr = append(attr, fmt.Sprintf("time=%d.%09d", n.MTime.Unix(), n.MTime.Nanosecond()))
 	fmt.Fprintln(fs.w, strings.Join(attr, " "))
 	return nil
 }
@@ -96,7 +96,7 @@ func mtreeFilename(s string) string {
 	var b strings.Builder
 	for _, c := range []byte(s) {
 		switch {
-		case c == '\\' || c == '#' || c < 32 || c > 126:
+		case c == '\\' || c == '#' || c <= 32 || c > 126:
 			b.WriteString(fmt.Sprintf("\\%03o", c))
 		default:
 			b.WriteByte(c)
